@@ -269,7 +269,7 @@ func panicKey(one string, fallback string) string {
 
 type bStats struct {
 	searchCmds, searchNonEmpty, fetchCmds, fetchCompared, fetchMissing, fetchUnspecified, listCmds, miscCmds int64
-	crashes                                                                                   int64
+	crashes                                                                                                  int64
 }
 
 var bst bStats
@@ -296,7 +296,8 @@ func bViolation(key string, det map[string]interface{}) {
 		all = append(all, st.Cmd)
 		last = st.Cmd
 	}
-	rank := fmt.Sprintf("%06d|%s|%s", len(last), last, strings.Join(all, "|"))
+	_ = last
+	rank := fmt.Sprintf("%06d|%s", len(strings.Join(all, "|")), strings.Join(all, "|"))
 	bCandMu.Lock()
 	if c, ok := bCands[key]; !ok || rank < c.rank {
 		bCands[key] = bCand{rank, det}
@@ -394,7 +395,11 @@ func leaf(wire string, c imap.SearchCriteria) skey {
 func searchLeaves(b *bBox) []skey {
 	n := uint32(len(b.msgs))
 	seq := func(a, z uint32) []imap.SeqSet { var s imap.SeqSet; s.AddRange(a, z); return []imap.SeqSet{s} }
-	uid := func(a, z uint32) []imap.UIDSet { var s imap.UIDSet; s.AddRange(imap.UID(a), imap.UID(z)); return []imap.UIDSet{s} }
+	uid := func(a, z uint32) []imap.UIDSet {
+		var s imap.UIDSet
+		s.AddRange(imap.UID(a), imap.UID(z))
+		return []imap.UIDSet{s}
+	}
 	var lastUID uint32
 	if n > 0 {
 		lastUID = b.msgs[n-1].UID
@@ -595,10 +600,10 @@ func searchKeyOf(q squery, what string) string {
 
 func partBSearch(thorough bool) {
 	type job struct {
-		box           int
-		uidFlavour    bool
-		esearchForm   bool
-		qs            []squery
+		box         int
+		uidFlavour  bool
+		esearchForm bool
+		qs          []squery
 	}
 	var jobs []job
 	probeBoxes := bStorePlan()
@@ -1100,9 +1105,7 @@ var ffails []ffail
 func fetchFailure(msg, sec string, det map[string]interface{}) {
 	ffailMu.Lock()
 	defer ffailMu.Unlock()
-	v, _ := bViol.LoadOrStore("fetch-section-mismatch(all)", new(int64))
-	atomic.AddInt64(v.(*int64), 1)
-	if len(ffails) < 20000 {
+	if len(ffails) < 50000 {
 		ffails = append(ffails, ffail{msg, sec, det})
 	}
 }
